@@ -23,7 +23,7 @@
    them into an alternation (positive) / a sequence (negative) of look-behinds, and the reference
    semantics reads them the same way (Oniguruma's reading). *)
 From FR Require Import Base State Utf8 Utf8Facts Chars Ast Analyze Sem SemSound SemK Det Vm Compile
-                       Machine Param Atomize ArrowA CompileCorrect RunCorrect EndToEnd Scope ScopeProofs.
+                       Machine Param Atomize ArrowA CompileCorrect RunCorrect EndToEnd Scope ScopeProofs Parse ParseInv FromPattern.
 From Coq Require Import NArith Lia.
 
 (* Whatever the stack bound, the backtrack limit and the step budget: the VM reports a match only
@@ -136,6 +136,42 @@ Theorem C01_in_scope_all :
   end.
 Proof. exact vm_agrees_in_scope_all. Qed.
 
+
+(* ... and started from the PATTERN STRING: parse (the model of parse.rs), analyse, compile, run.
+   The parser theorem (Proofs/ParseInv.v, a mutual induction over the seven parser functions, for
+   every byte string) discharges the hypotheses about back-reference bookkeeping and the \Z
+   helper; what is left is [wfe] (literal nodes are single characters) and [condok] (no conditional
+   under an atomic cut: F-condleak). *)
+Theorem C01_from_pattern_string :
+  forall (re : list nat) (e : expr) (st : pst), parse re = POk (e, st) ->
+  wfe e -> condok true e ->
+  forall (p : prog) (n : nat), regex_new (bs_of st) e = inr (RFancy p n) ->
+  forall cs : list (list nat), valid_chars cs ->
+  forall cx : ctx, c_text cx = concat cs -> (N.of_nat (length (concat cs)) < usize_max)%N ->
+  bnd cs (c_pos cx) ->
+  forall (max_st : nat) (lim : option N) (fuelv : nat),
+  match fst (vm_run cx p max_st lim fuelv) with
+  | RMatch sv => search_list cx e (S (length (c_text cx))) = Some (firstn (2 * S (ngroups e)) sv)
+  | RNoMatch => search_list cx e (S (length (c_text cx))) = None
+  | RPanic => False
+  | _ => True
+  end.
+Proof. exact pattern_vm_follows_reference. Qed.
+
+(* what the parser guarantees, for every byte string *)
+Theorem C01_parser_invariants : forall re e st, parse re = POk (e, st) ->
+  refs_ok True (fun g => bs_of st g = true) e /\ zok e /\ lbz e.
+Proof. exact parse_tree_ok. Qed.
+
+(* non-vacuity: the pattern (a|ab)(?=c)\1? *)
+Definition ex5_re : list nat := [40; 97; 124; 97; 98; 41; 40; 63; 61; 99; 41; 92; 49; 63].
+Example ex5_hyps : exists e st p n, parse ex5_re = POk (e, st) /\ wfe e /\ condok true e /\
+                                    regex_new (bs_of st) e = inr (RFancy p n).
+Proof.
+  eexists. eexists. eexists. eexists. split; [vm_compute; reflexivity|].
+  split; [cbn; repeat split; auto|]. split; [cbn; repeat split; auto|]. vm_compute. reflexivity.
+Qed.
+
 (* the reference the checks evaluate (the first-success continuation-passing [search], which the
    extracted model runs against the real crate) is the reference of the theorem *)
 Theorem C01_reference_forms_agree : forall cx e fuel, search cx e fuel = search_list cx e fuel.
@@ -216,4 +252,6 @@ Print Assumptions seg_all.
 Print Assumptions C01_reference_forms_agree.
 Print Assumptions C01_in_scope.
 Print Assumptions C01_in_scope_all.
+Print Assumptions C01_from_pattern_string.
+Print Assumptions C01_parser_invariants.
 Print Assumptions C01_vm_implements_atomized.
